@@ -266,7 +266,7 @@ Qed.
 Lemma li_set_m_error : forall F v ps a s, Post F v ps s ->
   safe (set_m_error NFixed v a) s (fun r s' => Post F (fst r) ps s' /\ (snd r <> Done -> fst r = v) /\ vn_unk (fst r) = vn_unk v).
 Proof.
-  intros F v ps a s [HL [Ht Hc]]. unfold set_m_error. destruct a as [| | |n].
+  intros F v ps a s [HL [Ht Hc]]. unfold set_m_error. destruct a as [| | |n|n].
   - apply safe_ret; simpl; split; [split|split]; auto.
   - apply safe_bind.
     assert (He : forall x, cnt x (vown v ++ psown ps ++ F) = cnt x (optl (vn_merr v)) + cnt x (vown (set_merr v None) ++ psown ps ++ F)).
@@ -295,6 +295,11 @@ Proof.
            intros u s'' ->. apply safe_ret; simpl; split; [split; auto | split; [intro H; congruence | reflexivity]].
         -- apply safe_ret. apply safe_ret; simpl; split; [split; auto | split; [intro H; congruence | reflexivity]].
       * apply safe_ret. apply safe_ret; simpl; split; [split|split]; auto.
+  - destruct (vn_fvalid v); simpl; [|apply safe_ret; simpl; split; [split|split]; auto].
+    apply safe_bind. eapply safe_weaken; [apply li_spline_calcs; exact HL|]. intros [|] s0 HL0; simpl;
+      [|apply safe_ret; simpl; split; [split|split]; auto].
+    apply safe_bind. eapply safe_weaken; [apply li_spline_calc; exact HL0|]. intros ok2 s1 HL1.
+    apply safe_ret; simpl. split; [split; auto | split; [auto | reflexivity]].
 Qed.
 
 (* vnacal_new_set_m_error, every argument class, every fault point, any state: the call completes, the ledger still equals
@@ -356,7 +361,7 @@ Theorem new_solve_writeback_not_atomic_refuted_lemma :
     last os Done = Err ENOMEM /\
     map (fun p => match pgv p with Some _ => true | None => false end) (w_prm w) = [false; false; false; false; true; false].
 Proof.
-  exists ks5, [WNew cfgA; WSetF 0; WAdd 0 (addA 4); WAdd 0 (addA 5); WSolve 0 0 false], 40.
+  exists ks5, [WNew cfgA; WSetF 0; WAdd 0 (addA 4); WAdd 0 (addA 5); WSolve 0 0 false false], 40.
   eexists; eexists; eexists. split; [vm_compute; reflexivity|]. split; vm_compute; reflexivity.
 Qed.
 
@@ -699,10 +704,10 @@ Qed.
 
 Arguments allocl : simpl never.
 
-Lemma li_solve : forall F v ps body trl s, Post F v ps s -> UOK v ps ->
-  safe (solve NFixed v ps body trl) s (SPost F v ps).
+Lemma li_solve : forall F v ps body trl fails s, Post F v ps s -> UOK v ps ->
+  safe (solve NFixed v ps body trl fails) s (SPost F v ps).
 Proof.
-  intros F v ps body trl s HP HU. pose proof HP as [HL [Ht Hc]]. unfold solve. cbv zeta.
+  intros F v ps body trl fails s HP HU. pose proof HP as [HL [Ht Hc]]. unfold solve. cbv zeta.
   assert (Hsame : forall s0, LI (vown v ++ psown ps ++ F) s0 -> SPost F v ps (v, ps, Err ENOMEM) s0).
   { intros s0 H0. split; [split; auto | split; auto]. }
   destruct (vn_fvalid v); simpl; [|apply safe_ret; split; [exact HP | split; auto]].
@@ -741,12 +746,17 @@ Proof.
   2:{ apply safe_bind. eapply safe_weaken; [apply (li_frees tb _ (cal ++ sp ++ sl ++ sm ++ O) s7 HL7); ms|]. intros u s8 H8.
       apply safe_bind. eapply safe_weaken; [apply (li_frees (rev cal) _ (sp ++ sl ++ sm ++ O) s8 H8); ms|]. intros u' s9 H9.
       apply safe_bind. eapply safe_weaken; [apply (li_frees3 sp sl sm _ O s9 H9); ms|]. intros u'' s10 H10. apply safe_ret. apply Hsame; exact H10. }
+  destruct fails.
+  { apply safe_bind. eapply safe_weaken; [apply (li_frees tb _ (cal ++ sp ++ sl ++ sm ++ O) s7 HL7); ms|]. intros u s8 H8.
+    apply safe_bind. eapply safe_weaken; [apply (li_frees (rev cal) _ (sp ++ sl ++ sm ++ O) s8 H8); ms|]. intros u' s9 H9.
+    apply safe_bind. eapply safe_weaken; [apply (li_frees3 sp sl sm _ O s9 H9); ms|]. intros u'' s10 H10. apply safe_ret.
+    split; [split; auto | split; auto]. }
   (* the write-back *)
   set (hs := match sp with [] => [] | h :: _ => [h] end).
   assert (Hoc : forall l, ocons (hd_error sp) l = hs ++ l) by (intro l; unfold hs; destruct sp; reflexivity).
   assert (Hsp : forall x, cnt x sp = cnt x hs + cnt x (tl sp)) by (intro x; unfold hs; destruct sp; simpl; autorewrite with cntdb; lia).
   assert (Hlen : length (vn_unk v) <= length (tl sp)).
-  { destruct (vn_unk v) as [|u0 l0]; [simpl; lia|]. destruct sp; simpl in Hlen3; [lia|]. rewrite repeat_length in Hlen3. simpl in *. lia. }
+  { unfold init_p_sizes in Hlen3. destruct (vn_unk v) as [|u0 l0]; [simpl; lia|]. destruct sp; simpl in Hlen3; [lia|]. rewrite repeat_length in Hlen3. simpl in *. lia. }
   set (G := hs ++ tb ++ cal ++ sl ++ sm ++ vown v ++ F).
   assert (HLw : LI (psown ps ++ tl sp ++ G) s7) by (apply (LI_eq _ _ _ HL7); unfold G, O; ms).
   apply safe_bind. eapply safe_weaken; [apply (li_write_back (vn_unk v) (c_freqs (vn_cfg v)) ps (tl sp) G s7 HLw Hc HU Hlen)|].
@@ -807,7 +817,7 @@ Qed.
 
 Lemma winv_step : forall w op s, WInv w s -> safe (wstep NFixed w op) s (fun r s' => WInv (fst r) s').
 Proof.
-  intros w op s [HL [Hc Hall]]. destruct op as [c|h|h a|h a|h body trl|h]; simpl.
+  intros w op s [HL [Hc Hall]]. destruct op as [c|h|h a|h a|h body trl fails|h]; simpl.
   - (* vnacal_new_alloc *)
     apply safe_bind.
     assert (HL0 : LI (psown (w_prm w) ++ flat_map oown (w_new w)) s) by exact HL.
@@ -849,7 +859,7 @@ Proof.
     destruct (Hall _ _ Hh) as [A B].
     assert (HP : Post (flat_map oown (upd (w_new w) h None)) v (w_prm w) s).
     { split; [|split; auto]. apply (LI_eq _ _ _ HL). intro x. unfold wown. autorewrite with cntdb. rewrite (flat_take _ _ _ x Hh). lia. }
-    apply safe_bind. eapply safe_weaken; [apply (li_solve _ v (w_prm w) body trl s HP B)|].
+    apply safe_bind. eapply safe_weaken; [apply (li_solve _ v (w_prm w) body trl fails s HP B)|].
     intros [[v' ps'] out] s' [[HL' [Ht' Hc']] [Hlen' Hu']]. apply safe_ret. simpl.
     apply (winv_put w h v v' ps' s' Hh); auto.
   - (* vnacal_new_free *)
